@@ -285,7 +285,21 @@ impl AnnotatedLexer<'_> {
     }
 
     fn get_any(&mut self) -> Result<Token, LexError> {
-        let item = self.lexer.next().ok_or(LexError::UnexpectedEOF)?;
+        let item = match self.lexer.next() {
+            Some(item) => item,
+            // The source ends in the middle of a statement: the statement
+            // ends here, exactly as if the file ended with a newline.
+            None if self.raw_token != RawToken::default() => {
+                let end = *self.raw_token.range().end();
+                Ok(Token::new(
+                    TokenType::Newline,
+                    "\n",
+                    Range::new(end, end),
+                    self.raw_token.file(),
+                ))
+            }
+            None => return Err(LexError::UnexpectedEOF),
+        };
         if let Ok(ref item) = item {
             if self.raw_token == RawToken::default() {
                 self.raw_token = item.clone().into();
